@@ -38,6 +38,9 @@ def registry(tier):
         ("CartPole(x_threshold=1.0)/FlattenObservation/TransformReward", lambda: TransformReward(FlattenObservation(CartPole(x_threshold=1.0)), lambda r: 2.0 * r)),
         # a finite target for unbounded components must either be rejected at construction or be honoured
         ("CartPole/RescaleObservation(-1,1) [may reject]", lambda: RescaleObservation(CartPole())),
+        # bounded components rescaled, components unbounded on both sides passed through (the only targets rescale_box accepts for them)
+        ("CartPole/RescaleObservation(bounded dims->[-1,1], unbounded dims unchanged)",
+         lambda: RescaleObservation(CartPole(), jnp.array([-1.0, -jnp.inf, -1.0, -jnp.inf]), jnp.array([1.0, jnp.inf, 1.0, jnp.inf]))),
         ("Pendulum/RescaleObservation(0,1)/ClipObservation", lambda: ClipObservation(RescaleObservation(Pendulum(), jnp.array(0.0), jnp.array(1.0)))),
     ]
     from lerax.env import mujoco as M
